@@ -382,10 +382,16 @@ class RTFEncodingService:
 
         # Apply column removal if any columns need to be removed
         if columns_to_remove:
-            remaining_columns = [
-                col for col in processed_df.columns if col not in columns_to_remove
+            # Select the remaining columns by position: a column *name* such as
+            # "*" or "^x$" would be read by polars as a wildcard / regex selector.
+            import polars as pl
+
+            remaining_positions = [
+                i
+                for i, col in enumerate(processed_df.columns)
+                if col not in columns_to_remove
             ]
-            processed_df = processed_df.select(remaining_columns)
+            processed_df = processed_df.select(pl.nth(remaining_positions))
 
             # Create a copy of attributes to modify
             processed_attrs = rtf_attrs.model_copy(deep=True)
